@@ -288,7 +288,8 @@ def streams(seed, tier):
 TECHNIQUE = ("Coq proof that the element-wise loops of the model equal the README overlay rule for all pairs of lengths and all i32 offsets (loop invariant by induction on the top vector), "
              "clamped GET/SET, one specification theorem per remaining instruction family, registry dispatch lemma; exhaustive + boundary + random differential correspondence by instruction NAME, the proven model evaluated against the implementation's output")
 DESIGN_REF = "DESIGN.md section 6.C09"
-LEVEL_TEXT = ("Spec/VecSpec.v states the README rule as a position-wise function (`overlay`: position j of the result combines second[j] with top[j - off] where that element exists and is second[j] otherwise; result length = second's length). "
+LEVEL_TEXT = ("SORT is STABLE and uniquely determined: C09_sort_is_stable (elements that compare equal - 0.0 / -0.0, all NaNs - keep their order ascending and reverse it descending) and C09_stable_sort_unique (any sorted, stable permutation is the model's result), hypothesis-free for the Flocq instance (FF_C09_*_flocq). "
+              "Spec/VecSpec.v states the README rule as a position-wise function (`overlay`: position j of the result combines second[j] with top[j - off] where that element exists and is second[j] otherwise; result length = second's length). "
               "C09_overlay_correct / C09_overlay_total prove, for every element type, every operation, ALL pairs of vector lengths and ALL offsets in Z, that the model's loop (the repaired Rust loop, with its index arithmetic) computes exactly that, "
               "with corollaries C09_overlay_length, C09_overlay_outside_unchanged, C09_overlay_inside_combined and the instruction-level C09_elementwise_instructions (10 instructions, divisions push nothing on a zero divisor in the overlap), C09_not_spec. "
               "C09_get_set_clamped proves GET/SET never fail and hit the clamped position for every i32 index; C09_ones_zeros/aggregates/sort/rotate/append/remove/set_insert/contains/boolindex/fromint/scalar/sine_spec relate each remaining instruction to a readable specification "
@@ -296,7 +297,7 @@ LEVEL_TEXT = ("Spec/VecSpec.v states the README rule as a position-wise function
               "The model is tied to the code by running, by instruction NAME through the real interpreter step: all pairs of BOOLVECTORs of length 0..3 x 15 offsets, all INT/FLOAT length pairs 0..5 x 19 offsets x 3 fillings, all GET/SET indices, hand-picked boundary cases of every other instruction and random whole states; "
               "each result is compared with the proven model. On the pinned tree the property was REFUTED (8 repairs, fixes/C09-01..08): two names bound to foreign functions, loops indexed the top vector with the second vector's indices (panic / ignored elements for unequal lengths), offset overflow, ROTATE on empty, NaN in SORT, SUM/MEAN overflow, SINE with negative length, INTVECTOR element overflow.")
 LEVEL_NOTE = ("Trusted: Coq kernel, extraction, driver, harness, generators; Flocq instance of f32 arithmetic validated by C04's f32 stream; libm trusted (oracle). Theorems closed under the global context. "
-              "The float SORT theorem is conditional on the comparison being a total preorder (true for binary32, not provable for an abstract FloatOps). The checker is `run.check` (observed = proven model), the specification functions themselves are proven equal to the model, not re-evaluated on the wire.")
+              "The float SORT theorems are conditional on the comparison being a total preorder for an abstract FloatOps and unconditional for the Flocq binary32 instance (Props/FloatFacts.v). The checker is `run.check` (observed = proven model), the specification functions themselves are proven equal to the model, not re-evaluated on the wire.")
 
 
 def extra(ctx):
